@@ -92,12 +92,18 @@ def _particles(mass: str, T0: float, P: int):
     return out
 
 
-def _solver(M: int, N: int, T0: float, mass: str, basisM: str, basisN: str, P: int, vmid: float = -0.5):
-    """A real Grid/BoltzmannSolver with a synthetic background; returns also the oracle's msq (P, M-1) at interior z."""
+def _solver(M: int, N: int, T0: float, mass: str, basisM: str, basisN: str, P: int, vmid: float = -0.5, rescaled: bool = False):
+    """A real Grid/BoltzmannSolver with a synthetic background; returns also the oracle's msq (P, M-1) at interior z.
+    rescaled: the grid is built with another momentum scale and brought to T0 by changeMomentumFalloffScale (nodes AND the
+    integration measure the moments use must follow)."""
     import WallGo
     from WallGo.grid import Grid
 
-    grid = Grid(M, N, 1.0 / T0, T0)
+    if rescaled:
+        grid = Grid(M, N, 1.0 / T0, 0.4 * T0)
+        grid.changeMomentumFalloffScale(T0)
+    else:
+        grid = Grid(M, N, 1.0 / T0, T0)
     phi = _field_profile(M, T0)
     fields = WallGo.Fields(phi[:, None])
     chi = O.z_nodes(M, endpoints=True)
@@ -214,7 +220,7 @@ def case_moments(p: dict) -> dict:
     M, N, T0, mass, basis, wname, a = p["M"], p["N"], p["T0"], p["mass"], p["basis"], p["w"], p["a"]
     basisM, basisN = BASES[basis]
     P = 2
-    grid, bs, msq, _, _ = _solver(M, N, T0, mass, basisM, basisN, P)
+    grid, bs, msq, _, _ = _solver(M, N, T0, mass, basisM, basisN, P, rescaled=bool(p.get("rescaled")))
     geo = O.geometry(N, T0, msq)
     conv = _Conv(M, N, basisM, basisN)
     Z = M - 1
@@ -309,8 +315,15 @@ def moments_cases(tier: str) -> list[dict]:
                     for w in WNAMES:
                         for a in range(2 * N - 2):  # a = 0 .. 2N-3
                             out.append(dict(M=M, N=N, T0=T0, mass=mass, basis=basis, w=w, a=a))
+    # the same moments on a grid whose momentum scale was changed after construction (smallest size, every weight and degree)
+    M0, N0 = sizes[0]
+    for T0 in T0S:
+        for basis in ("CC", "TT"):
+            for w in WNAMES:
+                for a in range(2 * N0 - 2):
+                    out.append(dict(M=M0, N=N0, T0=T0, mass=MASSES[-1], basis=basis, w=w, a=a, rescaled=True))
     for c in out:
-        c["id"] = f"M{c['M']}N{c['N']},T0={c['T0']:g},mass={c['mass']},basis={c['basis']},w={c['w']},a={c['a']}"
+        c["id"] = f"M{c['M']}N{c['N']},T0={c['T0']:g},mass={c['mass']},basis={c['basis']},w={c['w']},a={c['a']}" + (",grid=rescaled" if c.get("rescaled") else "")
     return with_ids(out)
 
 
